@@ -433,6 +433,13 @@ func emitLocks(ld *loaded, report *[]string) string {
 	}
 	sort.Strings(uw)
 	fmt.Fprintf(&b, "\n/-- every assignment to a field of a lock-protected object that is NOT in the guarded-field table, as function:field -/\ndef unguardedWrites : List String := %s\n", leanStrList(uniq(uw)))
+	// README naming discipline: a method called static* uses only the fields that never change after construction
+	var su []string
+	for _, pkg := range []string{"server", "client"} {
+		su = append(su, staticMethodFieldUses(ld.pkgs[pkg], pkg)...)
+	}
+	sort.Strings(su)
+	fmt.Fprintf(&b, "\n/-- every field of the receiver that a method named static* mentions and whose own name does not start with \"static\", as method:field -/\ndef staticFieldUses : List String := %s\n", leanStrList(uniq(su)))
 	b.WriteString("end Gen.Locks\n")
 	*report = append(*report, fmt.Sprintf("Locks: %d entry units, %d lock-assuming helpers, %d constructor loaders", len(entries), len(assuming), len(ctors)))
 	return b.String()
@@ -542,6 +549,47 @@ func unguardedWrites(p *packages.Package, pkg string) []string {
 						if fl := field(x.Args[0]); fl != "" {
 							out = append(out, name+":"+fl)
 						}
+					}
+				}
+				return true
+			})
+		}
+	}
+	return out
+}
+
+// staticMethodFieldUses lists "pkg.Recv.method:field" for every mention of a receiver field inside a
+// method whose name starts with "static", when the field's name does not itself start with "static".
+func staticMethodFieldUses(p *packages.Package, pkg string) []string {
+	var out []string
+	for _, f := range p.Syntax {
+		fn := filepath.Base(p.Fset.Position(f.Pos()).Filename)
+		if strings.HasSuffix(fn, "_test.go") || strings.HasPrefix(fn, "verif_") {
+			continue
+		}
+		for _, d := range f.Decls {
+			fd, ok := d.(*ast.FuncDecl)
+			if !ok || fd.Body == nil || !strings.HasPrefix(fd.Name.Name, "static") {
+				continue
+			}
+			rt, rv := recvInfo(fd)
+			if rt == "" || rv == "" {
+				continue
+			}
+			name := pkg + "." + rt + "." + fd.Name.Name
+			ast.Inspect(fd.Body, func(n ast.Node) bool {
+				se, ok := n.(*ast.SelectorExpr)
+				if !ok {
+					return true
+				}
+				id, ok := se.X.(*ast.Ident)
+				if !ok || id.Name != rv {
+					return true
+				}
+				// fields only (methods of the receiver are judged by their own names)
+				if sel := p.TypesInfo.Selections[se]; sel != nil && sel.Kind() == types.FieldVal {
+					if !strings.HasPrefix(se.Sel.Name, "static") {
+						out = append(out, name+":"+se.Sel.Name)
 					}
 				}
 				return true
